@@ -253,17 +253,25 @@ Definition f_items (f : rfield) : list item := f_first f :: map snd (f_rest f).
 Definition rcontent (f : rfield) : list (list relx) * list str :=
   (flat_map item_entries (f_items f), flat_map item_substvars (f_items f)).
 
-(* the accessors' result type has no room for the negation of an architecture *)
-Definition relx_drop_neg (x : relx) : relc :=
-  mk_relc (x_name x) (x_qual x) (x_ver x) (option_map (map snd) (x_archs x)) (x_profs x).
+(* The accessors return architectures as Strings, a negated one with "!" in front
+   (Relation::architectures since /repo 541b0f5): [relx_acc] is the content in the accessors' own
+   type, [relc_view] reads an accessor result back as content. *)
+Definition arch_acc_text (a : bool * str) : str := neg_text (fst a) ++ snd a.
+Definition arch_of_text (s : str) : bool * str :=
+  match s with
+  | c :: r => if (c =? 33)%N then (true, r) else (false, s)
+  | [] => (false, [])
+  end.
+Definition relx_acc (x : relx) : relc :=
+  mk_relc (x_name x) (x_qual x) (x_ver x) (option_map (map arch_acc_text) (x_archs x)) (x_profs x).
 Definition relc_view (c : relc) : relx :=
-  mk_relx (c_name c) (c_qual c) (c_ver c) (option_map (map (fun s => (false, s))) (c_archs c)) (c_profs c).
-Definition rcontent_drop_neg (f : rfield) : list (list relc) * list str :=
-  (map (map relx_drop_neg) (fst (rcontent f)), snd (rcontent f)).
+  mk_relx (c_name c) (c_qual c) (c_ver c) (option_map (map arch_of_text) (c_archs c)) (c_profs c).
+Definition rcontent_acc (f : rfield) : list (list relc) * list str :=
+  (map (map relx_acc) (fst (rcontent f)), snd (rcontent f)).
 Definition racc_view (a : list (list relc) * list str) : list (list relx) * list str :=
   (map (map relc_view) (fst a), snd a).
 
-(* finding class arch-negation-dropped: the field contains a negated architecture *)
+(* fields with a negated architecture (the former finding class arch-negation-dropped) *)
 Definition rel_neg_arch (r : rel) : bool :=
   match r_archs r with Some g => existsb t_neg (g_terms g) | None => false end.
 Definition item_neg_arch (i : item) : bool :=
